@@ -35,6 +35,7 @@ type WaitCase struct {
 	WaitInPrep bool `json:"wait_in_prep,omitempty"` // func kind: the node is built without a wait; its prep function configures the wait (builder method) before it returns
 	CtxNearMs int `json:"ctx_near_ms,omitempty"` // with Cancel: the context also carries a deadline this many ms away — BEFORE the end of the hour-long wait, but long after the explicit cancel(): the error is still the context's (Canceled)
 	ErrKind string `json:"err_kind,omitempty"` // "ctx-timeout" / "ctx-canceled": failing attempts return an error that wraps context.DeadlineExceeded / context.Canceled although the run's context is alive (a per-attempt timeout)
+	GiveUpAt int `json:"give_up_at,omitempty"` // shrinking kinds: once this many attempts have been made the node's budget is 1
 	SpinUs int `json:"spin_us,omitempty"` // batch: every failing attempt of item i ends i*SpinUs microseconds after it began (siblings' waits begin a fraction of a millisecond apart)
 	PreWaitNs int64 `json:"pre_wait_ns,omitempty"` // > 0: the node is first built with THIS wait and run once; then the wait is re-configured (builder method) to WaitNs and the measured run follows
 }
@@ -49,6 +50,22 @@ type waitNodeOverride struct {
 	waitNode
 	n    int
 	wait time.Duration
+}
+
+// waitNodeShrinking stops retrying (its budget getter answers 1) once attempt number giveUpAt has been made.
+type waitNodeShrinking struct {
+	waitNodeOverride
+	giveUpAt int
+}
+
+func (n *waitNodeShrinking) GetMaxRetries() int {
+	n.w.mu.Lock()
+	made := len(n.w.starts[0])
+	n.w.mu.Unlock()
+	if made >= n.giveUpAt {
+		return 1
+	}
+	return n.n
 }
 
 func (n *waitNodeOverride) GetMaxRetries() int     { return n.n }
@@ -195,6 +212,22 @@ func runWaitCase(cs *WaitCase) (*waitObs, []finding) {
 		}
 	case "struct-override":
 		node = &waitNodeOverride{waitNode{flyt.NewBaseNode(), w}, cs.N, wait}
+	case "struct-shrinking": // a node type whose GetMaxRetries gives up (answers 1) once an attempt has met a permanent error
+		node = &waitNodeShrinking{waitNodeOverride{waitNode{flyt.NewBaseNode(), w}, cs.N, wait}, cs.GiveUpAt}
+	case "func-shrinking": // a builder node whose exec function lowers the budget to 1 (builder method) when it meets a permanent error
+		var nb *flyt.NodeBuilder
+		nb = flyt.NewNode().WithMaxRetries(cs.N).WithWait(wait).
+			WithPrepFuncAny(func(ctx context.Context, s *flyt.SharedStore) (any, error) { w.prepEnd = time.Now(); return 0, nil }).
+			WithExecFuncAny(func(ctx context.Context, p any) (any, error) {
+				w.mu.Lock()
+				a := len(w.starts[0]) + 1
+				w.mu.Unlock()
+				if a >= cs.GiveUpAt {
+					nb.WithMaxRetries(1)
+				}
+				return w.exec(ctx, 0)
+			})
+		node = nb
 	case "func":
 		nb := flyt.NewNode().WithMaxRetries(cs.N).WithWait(wait)
 		switch cs.Route {
@@ -476,6 +509,18 @@ func runC20(c *Cfg) {
 		}
 	}
 	// upper bounds ("no wait before the first attempt or after the last one"): w = 300 ms
+	// a node that lowers its own budget while it runs: whichever attempt turns out to be the last, no wait follows it
+	for _, kind := range []string{"struct-shrinking", "func-shrinking"} {
+		cases = append(cases, &WaitCase{Family: "upper-shrinking-budget", Kind: kind, WaitNs: int64(300 * time.Millisecond), N: 3, K: 4, GiveUpAt: 2, Upper: true, Items: 1})
+		cases = append(cases, &WaitCase{Family: "upper-shrinking-budget", Kind: kind, WaitNs: int64(300 * time.Millisecond), N: 4, K: 5, GiveUpAt: 1, Upper: true, Items: 1})
+	}
+	// sub-millisecond waits for batch items (sequential and concurrent): still a lower bound
+	for _, wn := range []time.Duration{250 * time.Microsecond, 600 * time.Microsecond, 999 * time.Microsecond} {
+		for _, cc := range []int{0, 1, 3} {
+			cases = append(cases, &WaitCase{Family: "lower-bound-batch-sub-millisecond", Kind: "batch", WaitNs: int64(wn), N: 3, K: 4, C: cc, Items: 3, Route: []string{"", "opt-wait", "opt-all"}[cc%3]})
+		}
+		cases = append(cases, &WaitCase{Family: "lower-bound-sub-millisecond", Kind: "func", WaitNs: int64(wn), N: 3, K: 3}, &WaitCase{Family: "lower-bound-sub-millisecond", Kind: "struct", WaitNs: int64(wn), N: 3, K: 4})
+	}
 	for _, kind := range []string{"struct", "func", "batch"} {
 		cases = append(cases, &WaitCase{Family: "upper", Kind: kind, WaitNs: int64(300 * time.Millisecond), N: 2, K: 1, Upper: true, Items: 2})
 		cases = append(cases, &WaitCase{Family: "upper", Kind: kind, WaitNs: int64(300 * time.Millisecond), N: 2, K: 3, Upper: true, Items: 1})
